@@ -46,10 +46,17 @@ impl Curve {
     /// The delta-min vector is chosen such that it covers all
     /// arrivals until the given `horizon`.
     pub fn from_arrival_bound_until<T: ArrivalBound>(ab: &T, horizon: Duration) -> Curve {
+        // Simultaneous arrivals yield zero distances; a delta-min vector must
+        // not end in one, so keep going until a non-zero distance is included.
+        let mut nonzero_seen = false;
         Self::new(
             nonzero_delta_min_iter(&ab)
                 .enumerate()
-                .take_while(|(count, (_njobs, delta))| *delta <= horizon || *count < 2)
+                .take_while(|(count, (_njobs, delta))| {
+                    let keep = *delta <= horizon || *count < 2 || !nonzero_seen;
+                    nonzero_seen |= delta.is_non_zero();
+                    keep
+                })
                 .map(|(_count, (_njobs, delta))| delta)
                 .collect(),
         )
@@ -61,10 +68,17 @@ impl Curve {
     /// The delta-min vector is chosen such that it covers at least
     /// `up_to_njobs` job arrivals.
     pub fn from_arrival_bound<T: ArrivalBound>(ab: &T, up_to_njobs: usize) -> Curve {
+        // Simultaneous arrivals yield zero distances; a delta-min vector must
+        // not end in one, so keep going until a non-zero distance is included.
+        let mut nonzero_seen = false;
         Self::new(
             nonzero_delta_min_iter(&ab)
                 .enumerate()
-                .take_while(|(count, (njobs, _delta))| *njobs <= up_to_njobs || *count < 2)
+                .take_while(|(count, (njobs, delta))| {
+                    let keep = *njobs <= up_to_njobs || *count < 2 || !nonzero_seen;
+                    nonzero_seen |= delta.is_non_zero();
+                    keep
+                })
                 .map(|(_count, (_njobs, delta))| delta)
                 .collect(),
         )
